@@ -260,8 +260,10 @@ def extract_fn(relpath, qual, ann):
         c = it["closures"][k]
         CLOSURE_SEEN.append((qual, k, _closure_params(c, src)))
         if c["ret"] is not None:
-            raise Inconclusive(f"closure #{k} of {qual} already has a return type")
-        ed.add(c["or2_end"], c["or2_end"], " " + ctext.strip() + " ", "A1")
+            # the closure spells its return type (`|x| -> T { .. }`): the annotation's `-> (r: T') ensures ..` takes its place
+            ed.add(c["or2_end"], c["ret"][1], " " + ctext.strip() + " ", "A1")
+        else:
+            ed.add(c["or2_end"], c["or2_end"], " " + ctext.strip() + " ", "A1")
         if not c["body_is_block"]:
             ed.add(c["body"][0], c["body"][0], "{ ", "A1")
             ed.add(c["body"][1], c["body"][1], " }", "A1")
@@ -1047,7 +1049,10 @@ def extract_segment(relpath, qual, ann):
             raise Inconclusive(f"anchor lost: closure #{k} of segment of {qual}")
         c = seg_closures[k]
         CLOSURE_SEEN.append((ann.get("seg_name") or qual, k, _closure_params(c, src)))
-        ed.add(c["or2_end"], c["or2_end"], " " + ctext.strip() + " ", "A1")
+        if c["ret"] is not None:
+            ed.add(c["or2_end"], c["ret"][1], " " + ctext.strip() + " ", "A1")
+        else:
+            ed.add(c["or2_end"], c["or2_end"], " " + ctext.strip() + " ", "A1")
         if not c["body_is_block"]:
             ed.add(c["body"][0], c["body"][0], "{ ", "A1"); ed.add(c["body"][1], c["body"][1], " }", "A1")
     if ann.get("drop_response_attrs", True):
